@@ -32,3 +32,18 @@ let () =
                          List []] :: !res) sites) modes;   (* no class left after the repairs *)
         List [of_str (M.c18_tts t); of_bool (M.c18_dom m t); of_bool (M.c18_mentions m t); List (List.rev !res)]
     | _ -> failwith "c18-emit: bad case")
+
+let () =
+  (* (zod mapping ((name (field-rty ...)) ...) (site-rty ...) (observed-name ...)) -> ((model-declared ...) clause-on-observed class) *)
+  Registry.register "declared" (fun s ->
+    match list s with
+    | [zod; m; all; sts; obs] ->
+        let zod = (match zod with Atom "true" -> true | _ -> false) in
+        let m = mapping_ m in
+        let all = List.map (fun d -> match list d with
+                                     | [n; fs] -> (str_ n, List.map rty_ (list fs))
+                                     | _ -> failwith "c18-declared: bad struct") (list all) in
+        let sts = List.map rty_ (list sts) in
+        let obs = List.map str_ (list obs) in
+        List [List (List.map of_str (M.c18_declared zod m all sts)); of_bool (M.c18_decl_oracle m obs); of_bool (M.c18_decl_class m all)]
+    | _ -> failwith "c18-declared: bad case")
